@@ -66,6 +66,8 @@ type Scenario struct {
 	Name    string
 	Batch   int
 	Preload uint64 // c[1..Preload] appended and synced before the run
+	// Txn: context-aware datastore flavour (write batches, snapshot read transactions)
+	Txn bool
 	// Setup runs after preload in free mode (e.g. a tail deletion).
 	Setup func(e *Env)
 	Build func(e *Env)
@@ -115,7 +117,7 @@ func execute(t *testing.T, run *vk.Run, sc Scenario, prefix []int, logOn bool) (
 		defer s.Detach()
 		ds := vk.NewLogDS()
 		ds.OnOp = func(kind string) { vrt.Point("ds."+kind, nil) }
-		st, err := store.NewStore[*vk.H](ds.Wrap(false), store.WithWriteBatchSize(sc.Batch))
+		st, err := store.NewStore[*vk.H](ds.Wrap(sc.Txn), store.WithWriteBatchSize(sc.Batch))
 		if err != nil {
 			x.BubbleErr = err.Error()
 			return
